@@ -30,10 +30,16 @@ def lstrip (s : List Char) : List Char := s.dropWhile Py.isSpace
 body (without the closing quote) and the text after the closing quote -/
 def closeQuote : List Char → Option (List Char × List Char)
   | [] => none
-  | '\\' :: '\\' :: t => (closeQuote t).map fun (b, r) => ('\\' :: '\\' :: b, r)
-  | '\\' :: '"' :: t => (closeQuote t).map fun (b, r) => ('\\' :: '"' :: b, r)
-  | '"' :: t => some ([], t)
-  | c :: t => (closeQuote t).map fun (b, r) => (c :: b, r)
+  | c :: t =>
+    let plain := (closeQuote t).map fun (b, r) => (c :: b, r)
+    if c == '\\' then
+      match t with
+      | d :: t2 =>
+        if d == '\\' || d == '"' then (closeQuote t2).map fun (b, r) => (c :: d :: b, r)
+        else plain
+      | [] => none
+    else if c == '"' then some ([], t)
+    else plain
 
 /-- the text after the first `;`, or `none` -/
 def afterSemi : List Char → Option (List Char)
@@ -75,15 +81,12 @@ def replaceAll (pat rep : List Char) : Nat → List Char → List Char
 
 def replace (pat rep s : List Char) : List Char := replaceAll pat rep (s.length + 1) s
 
-/-- removal of the quotes and of the three escape forms -/
+/-- `if pv[0] == pv[-1] == '"': pv = pv[1:-1].replace(...)...`: removal of the quotes and of the
+three escape forms -/
 def unquoteValue (pv : List Char) : List Char :=
-  match pv with
-  | '"' :: t =>
-    if t.getLast? == some '"' then
-      let inner := t.dropLast
-      replace ['%', '2', '2'] ['"'] (replace ['\\', '"'] ['"'] (replace ['\\', '\\'] ['\\'] inner))
-    else pv
-  | _ => pv
+  if pv.head? == some '"' && pv.getLast? == some '"' then
+    replace ['%', '2', '2'] ['"'] (replace ['\\', '"'] ['"'] (replace ['\\', '\\'] ['\\'] (pv.drop 1).dropLast))
+  else pv
 
 /-- `_continuation_re.search(pk)`: `\*(\d+)$` — the key without the `*N` suffix, if it has one -/
 def continuationKey (pk : List Char) : Option (List Char) :=
